@@ -32,6 +32,8 @@ func main() {
 		repo := fs.String("repo", "/repo", "repository working tree")
 		verif := fs.String("verif", "/verif", "verification directory")
 		verbose := fs.Bool("v", false, "verbose")
+		only := fs.String("only", "", "debug: run only instances whose name contains this substring (evidence is still written)")
+		tmo := fs.Int("timeout", 0, "debug: per-query solver timeout in ms")
 		if len(os.Args) < 3 {
 			fmt.Println("usage: vp check <id>")
 			os.Exit(2)
@@ -42,6 +44,8 @@ func main() {
 			*tier = "quick"
 		}
 		seed, _ := strconv.ParseInt(os.Getenv("VERIF_SEED"), 10, 64)
+		checks.Only = *only
+		checks.TimeoutOverride = *tmo
 		os.Exit(checks.Run(id, *tier, seed, *repo, *verif, *verbose))
 	case "replay":
 		if len(os.Args) < 3 {
